@@ -8,6 +8,8 @@ Line protocol of engine `filter` (property C02).
   filter web <filters> <T|F strong> <T|F robots> <rec> <info> <robots outcome> <resps> <tables>
       (resps: `;`-separated `A` | `F` | `D:<info>@<robots outcome for that target>`)
   filter ftp <filters> <rec> <info> <shape> <perm probe> <tables>
+  filter httpchild <item inline level None|n> <item level> <T|F link is inline>    -> `<level> <inline level>` of the child record
+  filter commalist <str>                                                          -> the list comma_list returns
   filter ftpchild <T|F item is a glob> <T|F entry is a directory> <item level>     -> level of the child record
 
 str = dot-separated hex (`-` empty); list of str = `/`-separated (`~` empty);
@@ -220,6 +222,16 @@ def handle : List String → String
     | some fs, some r, some u, some shape, some perm, some tb =>
       both tb (fun o => encEvs (ftpProcess o fs r u shape perm))
     | _, _, _, _, _, _ => "bad-arg"
+  | ["httpchild", il, l, inl] =>
+    match decOptNat? il, l.toNat?, decBool? inl with
+    | some il, some l, some inl =>
+      let r := httpChildRecord ⟨none, none, l, il, 0⟩ default ⟨inl, default⟩
+      toString r.level ++ " " ++ encOptNat r.inlineLevel
+    | _, _, _ => "bad-arg"
+  | ["commalist", x] =>
+    match decList? x with
+    | some x => encLists (commaList x)
+    | none => "bad-arg"
   | ["ftpchild", g, d, l] =>
     match decBool? g, decBool? d, l.toNat? with
     | some g, some d, some l => toString (listingChildLevel g d l)
